@@ -375,8 +375,12 @@ def gen(seed, tier):
 
 
 def oracle(case, full):
+    if full.startswith("HANG"):
+        return [("hang", "no answer within the per-case watchdog (main thread spinning or blocked): " + full[:120])]
+    if full.startswith("ERR:internal"):
+        return [("internal-error", "the library threw internal_error: " + full[:200])]
     if full.startswith("CRASH") or full.startswith("ERR:") or full.startswith("MISSING"):
-        return [("crash", "loading resume data crashed, threw internal_error or hung: " + full[:200])]
+        return [("crash", "the library crashed: " + full[:200])]
     if full.startswith("BADCASE"):
         return []
     f = dict(t.split("=", 1) for t in full.replace(" || ", " ").split() if "=" in t)
